@@ -38,7 +38,7 @@ type Gen struct {
 
 const modPath = "github.com/libp2p/go-libp2p"
 
-func loadGen(repo string, patterns []string, specDir string) (*Gen, error) {
+func loadGen(repo string, patterns []string, specDir string, prop string) (*Gen, error) {
 	cfg := &packages.Config{
 		Mode: packages.NeedName | packages.NeedFiles | packages.NeedSyntax | packages.NeedTypes |
 			packages.NeedTypesInfo | packages.NeedImports | packages.NeedDeps | packages.NeedModule,
@@ -114,6 +114,11 @@ func loadGen(repo string, patterns []string, specDir string) (*Gen, error) {
 		for _, cf := range cfs {
 			sf, err := parseSpecFile(cf, path)
 			if err != nil {
+				// a broken contract file of another property must not take this property down
+				if txt, rerr := os.ReadFile(cf); rerr == nil && prop != "" && !strings.Contains(string(txt), prop) {
+					fmt.Fprintf(os.Stderr, "warning: ignoring %s (does not concern %s): %v\n", cf, prop, err)
+					continue
+				}
 				return nil, err
 			}
 			if prev := g.specs[path]; prev != nil {
@@ -297,5 +302,11 @@ func mergeSpecFiles(a, b *SpecFile) error {
 		a.Consts[k] = v
 	}
 	a.Ghosts = append(a.Ghosts, b.Ghosts...)
+	for k, v := range b.LockInvs {
+		if a.LockInvs == nil {
+			a.LockInvs = map[string]*PredDef{}
+		}
+		a.LockInvs[k] = v
+	}
 	return nil
 }
